@@ -1,3 +1,96 @@
-Require Import IP.Base.Bytes IP.Store.Storage IP.Store.FsStore IP.Store.FsCrash.
-Theorem C18_placeholder : True. Proof. exact I. Qed.
-Print Assumptions C18_placeholder.
+(* Props/C18.v — file-system store writes are atomic (partial by nature): property theorems only.
+   Model: Store/FsCrash.v (interleavings of the writer machine of Store/FsStore.v, crashes = any
+   prefix, failures = any step replaced by an error; a failing write may be short).
+   OUTSIDE the model, exercised but not proved: durability without fsync, the kernel's actual
+   rename atomicity, real thread scheduling. *)
+Require Import IP.Base.Bytes IP.Base.GoSem IP.Gen.FromGo IP.Store.Storage IP.Store.FsStore IP.Store.FsCrash.
+Require Import IP.Proofs.StoreBase IP.Proofs.StoreFs IP.Proofs.StoreCrash IP.Proofs.StoreCrashTop
+               IP.Proofs.StoreSeq IP.Proofs.StoreGood IP.Proofs.StoreFsRefine IP.Proofs.StoreUsable IP.Proofs.StoreRefuted.
+From Coq Require Import List Bool.
+Import ListNotations.
+
+(* For every set of writers (Put / PutVec / PutStream+commit / aborted streams, same or different
+   keys), every interleaving of their system calls, cut after any number of steps (process death,
+   abandoned stream), with any step replaced by a failure: every key path is ABSENT or holds EXACTLY
+   the whole content some writer committed for THAT key.
+   [keypath cfg k p]: p = pathForKey(k) and k is not subject to the C17 defect (its escaped form has
+   no '/', '.', NUL and is not empty) — with the escaping function applied that is every non-empty
+   key ([C18_escaping_keys]); without it the excluded keys are exactly the C17 finding. *)
+Theorem C18_atomic : forall cfg ws sched,
+  (forall k k', enc_key cfg k = enc_key cfg k' -> k = k') ->
+  Forall (writer_started cfg) ws ->
+  forall k p, keypath cfg k p ->
+    let f := fst (exec (fs_fresh cfg) ws sched) in
+    fs_lookup f p = None \/ exists c, fs_lookup f p = Some (File c) /\ committed ws k c.
+Proof. exact crash_atomic. Qed.
+Print Assumptions C18_atomic.
+
+(* the same from any state satisfying the invariant, e.g. the state left by an earlier crash;
+   [C0] = what was committed before *)
+Theorem C18_atomic_from : forall cfg C0 f0 ws0 ws sched,
+  (forall k k', enc_key cfg k = enc_key cfg k' -> k = k') ->
+  inv cfg C0 f0 ws0 ->
+  Forall (writer_started cfg) ws ->
+  forall k p, keypath cfg k p ->
+    let f := fst (exec f0 ws sched) in
+    fs_lookup f p = None \/ exists c, fs_lookup f p = Some (File c) /\ (C0 k c \/ committed ws k c).
+Proof. exact crash_atomic_from. Qed.
+Print Assumptions C18_atomic_from.
+
+(* the invariant behind it holds in EVERY reachable state: this is what a concurrent reader sees *)
+Theorem C18_invariant : forall cfg,
+  (forall k k', enc_key cfg k = enc_key cfg k' -> k = k') ->
+  forall C sched f ws, inv cfg C f ws -> inv cfg C (fst (exec f ws sched)) (snd (exec f ws sched)).
+Proof. exact exec_inv. Qed.
+Print Assumptions C18_invariant.
+
+(* staging files never collide with key paths *)
+Theorem C18_staging_disjoint : forall cfg name k p,
+  keypath cfg k p -> stage_path (f_base cfg) name <> p.
+Proof. exact staging_never_a_key_path. Qed.
+Print Assumptions C18_staging_disjoint.
+
+(* with the escaping function applied, every non-empty key is covered *)
+Theorem C18_escaping_keys : forall cfg k p, escaping cfg -> k <> [] -> key_len_ok (enc_key cfg k) ->
+  path_for_key cfg k = Some p -> keypath cfg k p.
+Proof. exact escaping_keypath. Qed.
+Print Assumptions C18_escaping_keys.
+
+(* the writers the theorems quantify over are what the store creates *)
+Theorem C18_writers_exist : forall cfg names kind k chunks w,
+  plain (enc_key cfg k) -> key_len_ok (enc_key cfg k) ->
+  mk_writer cfg names kind k chunks = Some w -> writer_started cfg w.
+Proof. exact mk_writer_started. Qed.
+Print Assumptions C18_writers_exist.
+
+Example C18_atomic_hyp_satisfiable :
+  let cfg := pinned_cfg wbase R12 in
+  (forall k k', enc_key cfg k = enc_key cfg k' -> k = k') /\
+  exists w, mk_writer cfg (fun i => stage_name (N.of_nat i)) WPut [107;101;121]%N [[1;2]%N; [3]%N] = Some w.
+Proof. split. intros k k' H. exact H. eexists. reflexivity. Qed.
+
+(* C18_usable: after ANY such execution a new process can open the store (Init succeeds and changes
+   nothing), and a put of any storable key under an unused staging name runs to success and the
+   content can be read back *)
+Theorem C18_usable : forall cfg ws sched,
+  path_ok (f_base cfg) ->
+  (forall k k', enc_key cfg k = enc_key cfg k' -> k = k') ->
+  Forall (writer_started cfg) ws ->
+  let f := fst (exec (fs_fresh cfg) ws sched) in
+  good cfg f /\
+  fs_init cfg f = (f, Ok tt) /\
+  forall k d env chunks, storable cfg k d ->
+    we_base env = f_base cfg -> we_dest env = Some d -> comp_ok (we_names env 0) ->
+    fs_lookup f (stage_path (f_base cfg) (we_names env 0)) = None ->
+    exists f' log, w_run (w_fuel env chunks) env f (WCreate 0 chunks) [] = (f', Ok tt, log) /\
+                   good cfg f' /\
+                   sys_exec f' (SOpenRd d) = (f', Ok (RVNode (File (concat chunks)))).
+Proof. exact crash_usable. Qed.
+Print Assumptions C18_usable.
+
+(* without escaping (the code as it stands) a key path can lie INSIDE the staging directory: the
+   reason the theorems exclude the keys of the C17 finding *)
+Theorem C18_staging_collision_refuted :
+  path_for_key (pinned_cfg wbase R12) k_intemp = Some (stage_path wbase [122;122]%N).
+Proof. exact staging_collision_refuted. Qed.
+Print Assumptions C18_staging_collision_refuted.
